@@ -18,9 +18,12 @@
  *       policy=r seed=77 stay=50 fam=0 famarg=0 sched=1:0,0:0 prog=c100000:1000,f0:5000,E65536 dump=-
  *  prog ops: cI:O / fI:O / eI:O  one ZSTD_compressStream2 call (continue/flush/end) offering I more input bytes and O output bytes;
  *            EO / FO  repeat end / flush with all remaining input (E) or no new input (F) and O output bytes per call until it returns 0;
- *            CI:O  repeat continue until I more bytes are consumed;
+ *            CI:O  repeat continue until I more bytes are consumed;  GI:O  repeat end, offering I more bytes in all and O output bytes per call, until it returns 0;
  *            R  ZSTD_CCtx_reset(session_only) (abort when a frame is open);  Ln  set compressionLevel n (mid-frame allowed);
  *            Xn the n-th allocation made by a WORKER thread from now on fails;  Wn  set nbWorkers n (between frames)
+ *            Pp:v  ZSTD_CCtx_setParameter(p, v) (numeric ZSTD_cParameter; between frames, or mid-frame for the parameters zstd lets change);
+ *            Dn  dictionary for the next frame(s): 0 none, 1 refPrefix (one frame), 2 loadDictionary, 3 refCDict, 4 loadDictionary of other bytes;
+ *            Z  ZSTD_sizeof_CCtx (takes the job and pool mutexes; bracketed like a progress query)
  */
 #define _GNU_SOURCE
 #ifndef C11_REAL_PTHREADS
@@ -58,8 +61,9 @@ static case_t C;
 
 static ZSTD_CCtx* g_cctx;
 static unsigned char *g_in, *g_out; static size_t g_incap, g_outcap, g_inpos, g_outpos;
-typedef struct { size_t in_off, in_len, out_off, out_len; int cksum, dictmode; } frame_t;
-static int g_cur_dictmode;
+typedef struct { size_t in_off, in_len, out_off, out_len; int cksum, dictmode; size_t dict_off; } frame_t;
+static int g_cur_dictmode; static int g_sticky_dict; static size_t g_sticky_off, g_cur_dict_off; static ZSTD_CDict* g_cdict;
+#define DICT_LEN() (C.isize > 40000 ? (size_t)40000 : (size_t)C.isize / 2)
 static frame_t g_frames[MAXFRAMES]; static int g_nframes; static size_t g_fin_off, g_fout_off; static int g_frame_open;
 static int g_bad;
 static void oracle(const char* msg) { printf("O %s\n", msg); g_bad = 1; }
@@ -100,6 +104,9 @@ static void c11_free(void* o, void* p) {
     h = (c11_hdr*)p - 1;
     if (h->magic != C11_LIVE) { oracle("free of a block that is not live (double free)"); return; }
     h->magic = C11_DEAD;
+#if defined(__SANITIZE_ADDRESS__)   /* zstd's workspace code poisons parts of its blocks in an AddressSanitizer build */
+    {   extern void __asan_unpoison_memory_region(void const volatile*, size_t); __asan_unpoison_memory_region(p, h->n); }
+#endif
     memset(p, 0xDD, h->n);
 }
 
@@ -436,7 +443,7 @@ static size_t one_call(ZSTD_EndDirective e, size_t in_more, size_t out_more) {
     ib.src = g_in; ib.pos = g_inpos; ib.size = g_inpos + in_more;
     ob.dst = g_out; ob.pos = g_outpos; ob.size = g_outpos + out_more;
     init_now = (g_cctx->streamStage == zcss_init);
-    if (init_now) g_cur_dictmode = g_cctx->prefixDict.dict ? 1 : (C.dict == 2 ? 2 : 0);
+    if (init_now) { g_cur_dictmode = g_cctx->prefixDict.dict ? 1 : (g_sticky_dict ? 2 : 0); g_cur_dict_off = g_cctx->prefixDict.dict ? 0 : g_sticky_off; }
     if (init_now) { if (g_frame_open) { g_outpos = g_fout_off; ob.pos = g_outpos; ob.size = g_outpos + out_more; } g_fin_off = g_inpos; g_fout_off = g_outpos; g_frame_open = 1; printf("OP init\n"); }
     printf("OP cs %d %zu %zu\n", (int)e, in_more, out_more);
     g_prev_opos = ob.pos; g_cur_ob = &ob;
@@ -451,7 +458,7 @@ static size_t one_call(ZSTD_EndDirective e, size_t in_more, size_t out_more) {
     if (C.probe && !ZSTD_isError(r) && g_frame_open && !(e == ZSTD_e_end && r == 0) && g_cctx->appliedParams.nbWorkers > 0 && g_cctx->streamStage != zcss_init) probe_progress();
     if (ZSTD_isError(r)) { g_frame_open = 0; g_outpos = g_fout_off; }
     else if (e == ZSTD_e_end && r == 0) {
-        if (g_nframes < MAXFRAMES) { frame_t* f = &g_frames[g_nframes++]; f->in_off = g_fin_off; f->in_len = g_inpos - g_fin_off; f->out_off = g_fout_off; f->out_len = g_outpos - g_fout_off; f->cksum = C.cksum; f->dictmode = g_cur_dictmode; }
+        if (g_nframes < MAXFRAMES) { frame_t* f = &g_frames[g_nframes++]; f->in_off = g_fin_off; f->in_len = g_inpos - g_fin_off; f->out_off = g_fout_off; f->out_len = g_outpos - g_fout_off; f->cksum = C.cksum; f->dictmode = g_cur_dictmode; f->dict_off = g_cur_dict_off; }
         g_frame_open = 0;
     }
     return r;
@@ -468,11 +475,31 @@ static void run_prog(void) {
         case 'C': { size_t const goal = g_inpos + (size_t)o->a > g_incap ? g_incap : g_inpos + (size_t)o->a; guard = 0;
                     while (g_inpos < goal && ++guard < 20000) { r = one_call(ZSTD_e_continue, goal - g_inpos, (size_t)o->b); if (ZSTD_isError(r)) break; } break; }
         case 'E': guard = 0; do { r = one_call(ZSTD_e_end, g_incap - g_inpos, (size_t)o->a); } while (!ZSTD_isError(r) && r != 0 && ++guard < 100000); break;
+        case 'G': { size_t const goal = g_inpos + (size_t)o->a > g_incap ? g_incap : g_inpos + (size_t)o->a; guard = 0;   /* end the frame after I more bytes */
+                    do { r = one_call(ZSTD_e_end, goal - g_inpos, (size_t)o->b); } while (!ZSTD_isError(r) && r != 0 && ++guard < 100000); break; }
         case 'F': guard = 0; do { r = one_call(ZSTD_e_flush, 0, (size_t)o->a); } while (!ZSTD_isError(r) && r != 0 && ++guard < 100000); break;
         case 'R': printf("OP reset\n"); ZSTD_CCtx_reset(g_cctx, ZSTD_reset_session_only); if (g_frame_open) { g_frame_open = 0; g_outpos = g_fout_off; } break;
         case 'L': printf("OP level %ld\n", o->a); { size_t const e = ZSTD_CCtx_setParameter(g_cctx, ZSTD_c_compressionLevel, (int)o->a); if (ZSTD_isError(e)) oracle("setParameter(compressionLevel) refused mid-frame"); } break;
         case 'X': printf("OP fault %ld\n", o->a); __atomic_store_n(&g_wallocs, 0, __ATOMIC_SEQ_CST); __atomic_store_n(&g_fail_at, o->a, __ATOMIC_SEQ_CST); break;
         case 'W': printf("OP workers %ld\n", o->a); ZSTD_CCtx_setParameter(g_cctx, ZSTD_c_nbWorkers, (int)o->a); break;
+        case 'P': { size_t const e = ZSTD_CCtx_setParameter(g_cctx, (ZSTD_cParameter)o->a, (int)o->b);
+                    printf("OP param %ld %ld %s\n", o->a, o->b, ZSTD_isError(e) ? ZSTD_getErrorName(e) : "ok");
+                    if (!ZSTD_isError(e) && o->a == (long)ZSTD_c_checksumFlag) C.cksum = (int)o->b;
+                    break; }
+        case 'D': { size_t e = 0; printf("OP dict %ld\n", o->a);
+                    if (g_cctx->streamStage != zcss_init) break;   /* only between frames */
+                    switch (o->a) {
+                    case 0: e = ZSTD_CCtx_loadDictionary(g_cctx, NULL, 0); g_sticky_dict = 0; g_sticky_off = 0; break;
+                    case 1: e = ZSTD_CCtx_refPrefix(g_cctx, g_in, DICT_LEN()); break;
+                    case 2: e = ZSTD_CCtx_loadDictionary(g_cctx, g_in, DICT_LEN()); g_sticky_dict = 1; g_sticky_off = 0; break;
+                    case 3: if (!g_cdict) g_cdict = ZSTD_createCDict(g_in, DICT_LEN(), 3);
+                            e = ZSTD_CCtx_refCDict(g_cctx, g_cdict); g_sticky_dict = 1; g_sticky_off = 0; break;
+                    default: { size_t const off = (size_t)C.isize > 2 * DICT_LEN() + 4096 ? 4096 : 0;
+                            e = ZSTD_CCtx_loadDictionary(g_cctx, g_in + off, DICT_LEN()); g_sticky_dict = 1; g_sticky_off = off; break; }
+                    }
+                    if (ZSTD_isError(e)) oracle("a dictionary call between frames failed");
+                    break; }
+        case 'Z': printf("PROBE begin\n"); { size_t const sz = ZSTD_sizeof_CCtx(g_cctx); printf("PROBE end\n"); printf("SIZEOF %zu\n", sz); } break;
         default: break;
         }
     }
@@ -486,7 +513,7 @@ static void verify_frames(void) {
         if (ZSTD_getFrameHeader(&fh, g_out + f->out_off, f->out_len) != 0) { oracle("frame header of a completed frame does not parse"); free(back); continue; }
         if (f->cksum && !fh.checksumFlag) oracle("checksum requested but the frame has no checksum flag");
         {   ZSTD_DCtx* d = ZSTD_createDCtx(); size_t const dl = C.isize > 40000 ? 40000 : (size_t)C.isize / 2;
-            r = f->dictmode ? ZSTD_decompress_usingDict(d, back, f->in_len + 1, g_out + f->out_off, f->out_len, g_in, dl) : ZSTD_decompressDCtx(d, back, f->in_len + 1, g_out + f->out_off, f->out_len);
+            r = f->dictmode ? ZSTD_decompress_usingDict(d, back, f->in_len + 1, g_out + f->out_off, f->out_len, g_in + f->dict_off, dl) : ZSTD_decompressDCtx(d, back, f->in_len + 1, g_out + f->out_off, f->out_len);
             ZSTD_freeDCtx(d); }
         if (ZSTD_isError(r)) { char b[200]; snprintf(b, sizeof b, "completed frame %d does not decode: %s", i, ZSTD_getErrorName(r)); oracle(b); }
         else if (r != f->in_len || memcmp(back, g_in + f->in_off, r) != 0) { char b[200]; snprintf(b, sizeof b, "completed frame %d decodes to different bytes (%zu vs %zu)", i, r, f->in_len); oracle(b); }
@@ -530,7 +557,7 @@ static void run_case(void) {
     ZSTD_CCtx_setParameter(g_cctx, ZSTD_c_checksumFlag, C.cksum);
     if (C.wlog) ZSTD_CCtx_setParameter(g_cctx, ZSTD_c_windowLog, C.wlog);
     if (C.dict == 1) ZSTD_CCtx_refPrefix(g_cctx, g_in, C.isize > 40000 ? 40000 : (size_t)C.isize / 2);
-    if (C.dict == 2) ZSTD_CCtx_loadDictionary(g_cctx, g_in, C.isize > 40000 ? 40000 : (size_t)C.isize / 2);
+    if (C.dict == 2) { ZSTD_CCtx_loadDictionary(g_cctx, g_in, C.isize > 40000 ? 40000 : (size_t)C.isize / 2); g_sticky_dict = 1; }
     /* what ZSTD_CCtx_init_compressStream2 does on first use; done here so that the compared region starts at the first call */
     g_cctx->mtctx = ZSTDMT_createCCtx_advanced((U32)C.nbw, g_cctx->customMem, g_cctx->pool);
     if (g_cctx->mtctx == NULL) { printf("E NOMT\n"); fflush(stdout); _exit(0); }
